@@ -881,6 +881,56 @@ pub fn breakeven_trees() -> Vec<T> {
     out
 }
 
+/// long atoms at the rows of the size-prefix table (1-byte prefix below 0x40, 2-byte below 0x2000): the
+/// break-even gap is about 8 list elements per atom byte, so the second copy sits thousands of levels
+/// down the parse stack and the path atom itself needs a 2-byte prefix
+pub fn breakeven_long_atoms(tier: &str) -> Vec<T> {
+    let mut out = vec![];
+    let ls: &[usize] = if tier == "thorough" { &[63, 64, 65, 300, 511, 512, 513, 1000] } else { &[63, 64, 512] };
+    for &l in ls {
+        let x = T::Atom((0..l).map(|i| 0x81 + (i % 100) as u8).collect());
+        for gap in (8 * l).saturating_sub(28)..=8 * l + 12 {
+            let mut r = x.clone();
+            for _ in 0..gap {
+                r = T::pair(T::Atom(vec![1]), r);
+            }
+            out.push(T::pair(x.clone(), r));
+        }
+    }
+    out
+}
+
+/// C17 on the long-atom break-even family only (deep trees: just the length and round-trip checks)
+fn oracle_c17_deep(tier: &str) -> OracleReport {
+    let mut rep = OracleReport::default();
+    for t in breakeven_long_atoms(tier) {
+        rep.evaluations += 1;
+        let classic = trees::encode(&t);
+        let th = short(&classic);
+        let mut a = Allocator::new();
+        let node = trees::build(&mut a, &t).unwrap();
+        let ser = match node_to_bytes_backrefs(&a, node) {
+            Ok(b) => b,
+            Err(e) => {
+                rep.fail("ser_br_total", format!("tree={} error {}", th, err_kind(&e)));
+                continue;
+            }
+        };
+        rep.nontrivial += 1;
+        rep.hit(if ser.len() < classic.len() { "compressed" } else { "no-backref" });
+        if ser.len() > classic.len() {
+            rep.fail("ser_br_never_grows", format!("tree=(X 1 … 1 . X) |X|={} nodes={} |ser_br|={} |ser|={}", match &t { T::Pair(x, _) => match &**x { T::Atom(b) => b.len(), _ => 0 }, _ => 0 }, t.nodes(), ser.len(), classic.len()));
+        }
+        let mut a2 = Allocator::new();
+        match node_from_bytes_backrefs(&mut a2, &ser) {
+            Ok(n2) if node_to_bytes_limit(&a2, n2, classic.len() + 8).map(|c| c == classic).unwrap_or(false) => {}
+            Ok(_) => rep.fail("de_ser_br", format!("tree={} ser_br={} decodes to a different tree", th, short(&ser))),
+            Err(e) => rep.fail("de_ser_br", format!("tree={} ser_br={} decode error {}", th, short(&ser), err_kind(&e))),
+        }
+    }
+    rep
+}
+
 fn oracle_c17(rng: &mut Rng, n: usize, tier: &str) -> OracleReport {
     let mut rep = OracleReport::default();
     let mut seen = std::collections::HashSet::new();
@@ -1115,6 +1165,7 @@ fn oracle_c18(rng: &mut Rng, n: usize, tier: &str) -> OracleReport {
 pub fn oracle(name: &str, rng: &mut Rng, n: usize, tier: &str) -> OracleReport {
     match name {
         "backref_c17" => oracle_c17(rng, n, tier),
+        "backref_c17deep" => oracle_c17_deep(tier),
         "backref_c18" => oracle_c18(rng, n, tier),
         _ => panic!("unknown oracle {name}"),
     }
